@@ -1567,7 +1567,7 @@ void Validator::ValidatorImpl::validateReset(const ResetPtr &reset, const Compon
             varOutsideComponent = true;
         } else {
             varParentName = varParent->name();
-            if (varParentName != component->name()) {
+            if (varParent != component) {
                 varOutsideComponent = true;
             }
         }
@@ -1584,7 +1584,7 @@ void Validator::ValidatorImpl::validateReset(const ResetPtr &reset, const Compon
             testVarOutsideComponent = true;
         } else {
             testVarParentName = varParent->name();
-            if (testVarParentName != component->name()) {
+            if (varParent != component) {
                 testVarOutsideComponent = true;
             }
         }
